@@ -239,6 +239,13 @@ def file_menu():
     c('cnfgen', 'dimacs {FX}/small.cnf -T shuffle')
     c('cnfgen', 'dimacs {FX}/small.cnf')
     c('cnfshuffle', '-i {FX}/small.cnf')
+    # constructions whose arguments coincide in some sense (offsets equal modulo
+    # the side, repeated dimensions): what the header says must not depend on
+    # the order a set happens to have
+    c('cnfgen', 'php shift 4 5 0 5 2')
+    c('cnfgen', 'php shift 3 3 3 0 1')
+    c('pbgen', 'subsetcard shift 4 4 4 0')
+    c('cnfgen', 'kcolor 2 grid 2 2 2')
     # samplers that restart many times (dense regular graphs) and large sparse
     # random graphs (other code paths than the small ones of the menu)
     c('cnfgen', 'subsetcard regular 10 10 8')
